@@ -182,7 +182,7 @@ def gen(rng, tier):
         nm = rng.choice(NAMESETS)
         names = [nm(i) for i in range(n)]
         style = rng.random()
-        if style < 0.2:
+        if style < 0.08:
             # rooted reference whose root has a tip child
             rest = g.shape(names[1:], maxdeg=rng.choice([2, 2, 3]), rootdeg=rng.choice([2, 2, 3]) if n > 3 else None)
             refsh = [names[0], rest] if rng.random() < 0.5 else [rest, names[0]]
